@@ -174,14 +174,8 @@ def dom (p : Pkg) : Bool := decide (runGoS p = runGo p)
 /-- the specification declares exactly one variable, with at most one initialisation expression -/
 def single (v : VarSpec) : Bool := v.names.length == 1 && v.inits.length ≤ 1
 
-/-- no comma-ok declaration (`var v, ok = m[k]`, `var v, ok = <-c`) stands before the declaration
-    of its map / channel operand (the specification does not care; the interpreter does: F15-9) -/
-def operandsFirst (p : Pkg) : Bool := !operandLate p
-
 /-- class label of an input -/
-def classify (p : Pkg) : String :=
-  if !operandsFirst p then "comma-ok-before-operand"
-  else if dom p then "in-domain" else "several-names-one-node"
+def classify (p : Pkg) : String := if dom p then "in-domain" else "several-names-one-node"
 
 /-! ### which declarations are init functions
 
